@@ -21,6 +21,7 @@ RULE = (
     "raise are counted, not flagged. Non-trivial = >=2 samples at or below the size limit (segregating) or >=2 samples to drop (n-plate) or >=3 plates in one "
     "sample (merge smoothers). distinct = distinct case JSON."
     ' In half the cases the generator handed over is a PCG64 whose stream repeats words at drawn positions (vf.randomctl.StutterGenerator).'
+    ' Also: every plate-size limit 1 .. 420 (thorough 2100) with samples of m, m-1, 2m, k*m, k*m+1 experiments (sample-segregating generator, fixed-size smoother).'
 )
 ASSUMPTIONS = [
     "guarantees are asserted on the unobserved plates of the returned screen (the observed part passes through: C11)",
@@ -30,7 +31,7 @@ ASSUMPTIONS = [
 
 def budgets(tier):
     if tier == "quick":
-        return {"examples": 170, "max_s": 80, "shrink_s": 20, "shards": 1}
+        return {"examples": 170, "max_s": 120, "shrink_s": 20, "shards": 1}
     return {"examples": 2000, "max_s": 700, "shrink_s": 90, "shards": 16}
 
 
@@ -104,7 +105,52 @@ def _mk(cls, **kw):
     return obj
 
 
+def exhaustive(tier):
+    # plate-size limits as real plates have them (tens to thousands of wells), every value of a range, with samples whose
+    # experiment counts are exact multiples of the limit, one more and one less
+    top = 420 if tier == "quick" else 2100
+    for a in range(1, top, 60):
+        yield {"kind": "size_sweep", "limits": [a, min(a + 60, top)], "seed": a}
+
+
+def _check_size_sweep(case):
+    from batchie import retrospective as R
+    from batchie.data import Screen
+
+    checked = 0
+    for m in range(*case["limits"]):
+        mult = 2 + m % 3
+        counts = [m * mult, m * mult + 1, m, max(1, m - 1), 2 * m]
+        sample = np.repeat(np.arange(len(counts)), counts)
+        n = len(sample)
+        i = np.arange(n)
+        screen = Screen(treatment_names=np.stack([np.char.add("t", (i % 7).astype(str)), np.char.add("t", ((i + 1 + i // 7 % 5) % 7).astype(str))], axis=1), treatment_doses=np.ones((n, 2)), observations=np.full(n, 0.5), observation_mask=np.zeros(n, dtype=bool), sample_names=np.char.add("s", sample.astype(str)), plate_names=np.char.add("p", sample.astype(str)), control_treatment_name="ctl")
+        out = R.SampleSegregatingPermutationPlateGenerator(max_plate_size=m).generate_plates(screen, randomctl.make_rng(case["seed"] + m, [None, [0, 1], [0, 2, 0, 3]][m % 3]))
+        pn, sn = np.asarray(out.plate_names), np.asarray(out.sample_names)
+        require(out.size == n and not bool(np.any(np.asarray(out.observation_mask))), "segregating.sweep.keeps_experiments", lambda: "limit %d: %d of %d experiments left, %d observed" % (m, out.size, n, int(np.sum(out.observation_mask))))
+        names, inv, cnt = np.unique(pn, return_inverse=True, return_counts=True)
+        worst = int(cnt.max())
+        require(worst <= m, "segregating.max_size", lambda: "limit %d, samples with %r experiments: plate %r has %d experiments" % (m, counts, str(names[int(cnt.argmax())]), worst))
+        first = np.full(len(names), "", dtype=sn.dtype)
+        first[inv] = sn
+        require(bool(np.all(first[inv] == sn)), "segregating.single_sample", lambda: "limit %d: a generated plate holds more than one sample" % m)
+        # plates of m, m+1, 2m-1, m-1 and 3m experiments cut to the fixed size m
+        sizes = [m, m + 1, 2 * m - 1, max(1, m - 1), 3 * m]
+        plate = np.repeat(np.arange(len(sizes)), sizes)
+        k = len(plate)
+        j = np.arange(k)
+        scr2 = Screen(treatment_names=np.stack([np.char.add("t", (j % 5).astype(str)), np.char.add("t", ((j + 1) % 5).astype(str))], axis=1), treatment_doses=np.ones((k, 2)), observations=np.full(k, 0.5), observation_mask=np.zeros(k, dtype=bool), sample_names=np.full(k, "s"), plate_names=np.char.add("q", plate.astype(str)), control_treatment_name="ctl")
+        out2 = R.FixedSizeSmoother(plate_size=m).smooth_plates(scr2, randomctl.make_rng(case["seed"] + m + 1, [None, [0, 1], [0, 2, 0, 3]][(m + 1) % 3]))
+        names2, cnt2 = np.unique(np.asarray(out2.plate_names), return_counts=True)
+        want = sorted("q%d" % q for q, v in enumerate(sizes) if v >= m)
+        require(sorted(str(x) for x in names2) == want and bool(np.all(cnt2 == m)), "fixedsize.sweep", lambda: "fixed size %d on plates of %r experiments leaves plates %r with %r experiments" % (m, sizes, [str(x) for x in names2], cnt2.tolist()))
+        checked += 1
+    return {"nontrivial": True, "labels": ["size-sweep"], "counts": {"limits_swept": checked}}
+
+
 def check_case(case):
+    if case.get("kind") == "size_sweep":
+        return _check_size_sweep(case)
     from batchie import retrospective as R
     from batchie.data import filter_dataset_to_treatments_that_appear_in_at_least_one_combo
 
